@@ -580,8 +580,10 @@ func (env *SEnv) binary(e *SExpr) *SVal {
 	case isFloat(a.Go) && isFloat(b.Go):
 		vc.assumed["float64 arithmetic treated as real arithmetic"] = true
 		switch e.Op {
-		case "+", "-", "*", "/":
+		case "+", "-":
 			return &SVal{T: App(e.Op, SReal, a.T, b.T), Go: a.Go}
+		case "*", "/":
+			return &SVal{T: vc.realMulDiv(e.Op, a.T, b.T), Go: a.Go}
 		case "==":
 			return &SVal{T: Eq(a.T, b.T), Go: tb}
 		case "!=":
